@@ -1,6 +1,6 @@
 (* C15 — the witness automaton is a sub-language, empty only for an empty language. Statements only. *)
 From Coq Require Import List NArith Bool.
-From V Require Import Sem Prod Incl TrimDefs CandDefs CandProofs.
+From V Require Import Sem Prod Incl TrimDefs CandDefs CandProofs CandModel.
 
 (* the gate evaluated on libvata's result decides exactly the property *)
 Theorem C15_gate : forall A R, cand_gate A R = true <->
@@ -15,7 +15,18 @@ Proof. exact cand_sub_lang. Qed.
 Theorem C15_nonempty : forall A, is_empty A = false <-> exists t, accepts A t.
 Proof. exact nonempty_spec. Qed.
 
+(* (A) model of the search (all nullary rules, then one justifying rule per newly reached state, then the reached final
+   states and top-down pruning): for every automaton and every order of its rules the result is a sub-automaton that is
+   non-empty whenever A is, hence satisfies the property *)
+Theorem C15_model_ok : forall A, candidate_ok A (cand_model A) = true.
+Proof. exact cand_model_ok. Qed.
+Theorem C15_model_property : forall A,
+  (forall t, accepts (cand_model A) t -> accepts A t) /\ ((exists t, accepts A t) -> exists t, accepts (cand_model A) t).
+Proof. exact cand_model_property. Qed.
+
 Print Assumptions C15_gate.
+Print Assumptions C15_model_ok.
+Print Assumptions C15_model_property.
 Print Assumptions C15_candidate_ok_sound.
 Print Assumptions C15_sub_lang.
 Print Assumptions C15_nonempty.
